@@ -143,6 +143,29 @@ def detection_defeated(L):
     return False
 
 
+def graph_cyclic(L):
+    """True if the creator/variables graph reachable from L contains a cycle (an in-place update on a cleared tensor whose
+    dependants were still alive). On such a graph the unchanged library raises InvalidBackprop."""
+    WHITE, GREY, BLACK = 0, 1, 2
+    color = {}
+    stack = [(L, iter(L._creator.variables if L._creator is not None else ()))]
+    color[id(L)] = GREY
+    while stack:
+        node, it_ = stack[-1]
+        nxt = next(it_, None)
+        if nxt is None:
+            color[id(node)] = BLACK
+            stack.pop()
+            continue
+        c = color.get(id(nxt), WHITE)
+        if c == GREY:
+            return True
+        if c == WHITE:
+            color[id(nxt)] = GREY
+            stack.append((nxt, iter(nxt._creator.variables if nxt._creator is not None else ())))
+    return False
+
+
 def run_case(case):
     prog, L, rec = case["prog"], case["L"], case["rec"]
     cnt, viol, sets = {"final_calls": 0}, [], {}
@@ -173,6 +196,7 @@ def run_case(case):
     # mechanism probe (for classification only): is there an operation in L's recorded graph one of whose inputs no longer lists
     # it as a consumer although that input's consumer set is non-empty again (cleared, then refilled by re-use)?
     defeated = detection_defeated(it.env[L])
+    cyclic = graph_cyclic(it.env[L])
     if it.env[L]._creator is None:
         # L itself was cleared (it became upstream of another tensor through an in-place update and that tensor was cleared or
         # back-propagated): L is a graph-less leaf now, backward() on it has nothing to compute - outside the property's premise
@@ -184,6 +208,15 @@ def run_case(case):
         outcome = "returned"
     except InvalidBackprop:
         outcome = "InvalidBackprop"
+        # the refusal must be stable: asking again must refuse again (or give exactly the recorded gradients)
+        try:
+            it.env[L].backward()
+            outcome = "returned"
+            cnt["returned_on_retry"] = 1
+        except InvalidBackprop:
+            pass
+        except Exception as e:
+            viol.append({"monitor": "either-or", "mech": f"retry-raises:{type(e).__name__}", "msg": f"second L.backward() raised {type(e).__name__}"})
     except Exception as e:
         outcome = "other:" + type(e).__name__
         viol.append({"monitor": "either-or", "mech": f"final-backward-raises:{type(e).__name__}",
@@ -203,7 +236,7 @@ def run_case(case):
             cnt["grads_compared"] = cnt.get("grads_compared", 0) + 1
             if (g is None) != (g2 is None) or (g is not None and (g.shape != g2.shape or not np.allclose(g, g2, rtol=1e-12, atol=1e-12, equal_nan=True))):
                 viol.append({"monitor": "recorded-gradient", "mech": "silent-wrong-gradient" + (":cleared" if cleared else ":uncleared"),
-                             "defeated": defeated,
+                             "defeated": defeated and not cyclic and not cnt.get("returned_on_retry"),
                              "msg": f"final backward returned normally but {n}.grad = {None if g2 is None else g2.ravel()[:4]} while the recorded "
                                     f"computation gives {None if g is None else g.ravel()[:4]}; events {events}"})
                 break
@@ -216,4 +249,6 @@ def classify(v, case):
     m = v.get("mech") or v["monitor"]
     if m.startswith("silent-wrong-gradient") and v.get("defeated"):
         return "reuse-refills-consumers"
+    if m == "retry-raises:AssertionError" and any(st.get("fn") == "einsum" for st in case.get("prog", [])):
+        return "retry-after-refusal-einsum-cache"
     return m
